@@ -64,6 +64,17 @@ pub fn audit_cfg(cfg: &Cfg, field: &Field, src: &str, case: &Value, tag: &str) -
 }
 
 pub fn audit_source(src: &str, curve: &str, field: &Field, case: &Value) -> Audit {
+    if case["route"].as_str() == Some("runner") {
+        // Replay of a route-B case.
+        let root = crate::infra::work_dir("c06-replay");
+        let name = if src.contains("template T(") { "T" } else { "f" };
+        let out = match pipe::lift_via_runner(src, &root, name, name == "f", case["main"].as_bool().unwrap_or(false)) {
+            Ok(cfg) => audit_cfg(&cfg, field, src, case, "/runner"),
+            Err(_) => Audit { violations: Vec::new(), lifted: false, claims: 0, runs: 0, discarded: 0 },
+        };
+        let _ = std::fs::remove_dir_all(&root);
+        return out;
+    }
     match pipe::lift(src, &pipe::curve_of(curve)) {
         Ok((cfg, _)) => audit_cfg(&cfg, field, src, case, ""),
         Err(LiftError::NotParsed) => Audit {
@@ -246,6 +257,55 @@ pub fn run(run: &Run) {
         });
     }
 
+    // Route B: the same audit on the CFG the real runner builds from a file (BN254), for a slice
+    // of the operator table and the control-flow programs of <= 2 statements.
+    {
+        let (curve, p) = real_primes().into_iter().next().unwrap();
+        let field = Field::new(&p);
+        let alphabet = literal_alphabet(&field);
+        let cases = table_cases(alphabet.len(), run.tier);
+        let slice: Vec<&TableCase> = cases.iter().step_by(5).collect();
+        let root = crate::infra::work_dir("c06");
+        par_each(&slice, |_, tc| {
+            let src = table_source(tc, &alphabet);
+            let mut case = table_case_json(tc, curve);
+            case["route"] = json!("runner");
+            run.watch(&case);
+            let dir = root.join(format!("{:?}", std::thread::current().id()).replace(|c: char| !c.is_ascii_alphanumeric(), ""));
+            run.eval(1);
+            if let Ok(cfg) = pipe::lift_via_runner(&src, &dir, "f", true, false) {
+                let audit = audit_cfg(&cfg, &field, &src, &case, "/runner");
+                run.add_extra_count("value_claims_compared_via_runner", audit.claims);
+                run.violations(audit.violations);
+            }
+        });
+        let small = enumerate(cf_opts(2));
+        par_each(&small, |i, skel| {
+            let na: usize = skel.iter().map(|s| s.atoms()).sum();
+            let nc: usize = skel.iter().map(|s| s.conds()).sum();
+            let dir = root.join(format!("{:?}", std::thread::current().id()).replace(|c: char| !c.is_ascii_alphanumeric(), ""));
+            for ac in 0..CF_ATOMS.pow(na as u32) {
+                let atoms = digits(ac, CF_ATOMS, na);
+                for cc in 0..CF_CONDS.pow(nc as u32) {
+                    let conds = digits(cc, CF_CONDS, nc);
+                    for (is_function, with_main) in [(true, false), (false, false), (false, true)] {
+                        let case = json!({"kind": "cf", "route": "runner", "curve": "BN254", "max_stmts": 2, "index": i,
+                            "atoms": atoms, "conds": conds, "function": is_function, "main": with_main});
+                        run.watch(&case);
+                        let def = cf_def(skel, &atoms, &conds, is_function);
+                        let src = print_def(&def).text;
+                        run.eval(1);
+                        if let Ok(cfg) = pipe::lift_via_runner(&src, &dir, &def.name, is_function, with_main) {
+                            let audit = audit_cfg(&cfg, &field, &src, &case, "/runner");
+                            run.add_extra_count("value_claims_compared_via_runner", audit.claims);
+                            run.violations(audit.violations);
+                        }
+                    }
+                }
+            }
+        });
+        let _ = std::fs::remove_dir_all(&root);
+    }
     run.assume("uninitialised locals are 0 (Circom's default initialisation); they are only declared outside loops");
     run.assume("runs that divide by zero, index out of range or read an unassigned signal are discarded from that point on");
     run.assume("literals are below the field size (the property's quantifier)");
